@@ -4,9 +4,11 @@ import (
 	"flag"
 	"fmt"
 	"os"
+	"path/filepath"
 	"regexp"
 	"sort"
 	"strings"
+	"time"
 )
 
 func main() {
@@ -66,6 +68,14 @@ func cmdVerify(args []string) {
 		keys = append(keys, k)
 	}
 	sort.Strings(keys)
+	// stale work directories of runs that were killed (e.g. output piped into head)
+	if old, _ := filepath.Glob(filepath.Join(os.TempDir(), "govc[0-9]*")); len(old) > 0 {
+		for _, d := range old {
+			if fi, err := os.Stat(d); err == nil && time.Since(fi.ModTime()) > 30*time.Minute {
+				os.RemoveAll(d)
+			}
+		}
+	}
 	work, _ := os.MkdirTemp("", "govc")
 	if !*keep {
 		defer os.RemoveAll(work)
@@ -113,7 +123,9 @@ func cmdVerify(args []string) {
 		}
 	}
 	if bad > 0 {
+		if !*keep {
+			os.RemoveAll(work)
+		}
 		os.Exit(1)
 	}
 }
-
